@@ -52,6 +52,7 @@ def concrete_post(obs):
     W = []
     for f in p["W"]:
         W.append(V(type=f.get("type"), seq=to_int(f.get("seq")), possdup=(f.get("possdup") == "Y"),
+                   new=(f.get("possdup") != "Y" and f.get("type") != "4"),
                    fields=f.get("tags", {}), opaque=False))
     p["W"] = W
     p["A"] = [to_int(a) for a in p["A"]]
